@@ -3,9 +3,7 @@ package main
 import (
 	"encoding/json"
 	"fmt"
-	"go/ast"
-	"go/parser"
-	"go/token"
+	"os"
 	"path/filepath"
 	"regexp"
 	"sort"
@@ -38,46 +36,47 @@ var reTmp = regexp.MustCompile(`_v[0-9]+`)
 
 func normTmp(s string) string { return reTmp.ReplaceAllString(s, "_v#") }
 
-// goDecls maps a declaration key (func f, method (R) m, var v, type T) to its source text.
-// ok=false when the file is not parseable Go (then nothing can be compared).
+// goDecls maps a declaration key (func f, method (R) m, var v, type T) to its source text. fc emits every
+// top-level declaration starting at column 0 with func / type / var, so the file is cut textually at those lines:
+// no Go parser is involved, and a definition whose own translation is not valid Go (not this property's business)
+// cannot hide or distort its neighbours. Always returns true (kept for the callers' shape).
+var reDeclStart = regexp.MustCompile(`^(?:func (\([^)]*\) )?([A-Za-z_][A-Za-z0-9_]*)[\[(]|type ([A-Za-z_][A-Za-z0-9_]*)[ \[]|var ([A-Za-z_][A-Za-z0-9_]*) )`)
+
 func goDecls(src []byte, into map[string]string) bool {
-	fset := token.NewFileSet()
-	f, err := parser.ParseFile(fset, "gen.go", src, parser.SkipObjectResolution)
-	if err != nil {
-		return false
-	}
-	text := func(n ast.Node) string {
-		return string(src[fset.Position(n.Pos()).Offset:fset.Position(n.End()).Offset])
-	}
-	for _, d := range f.Decls {
-		switch x := d.(type) {
-		case *ast.FuncDecl:
-			key := "func " + x.Name.Name
-			if x.Recv != nil && len(x.Recv.List) > 0 {
-				key = "method (" + typeText(src, fset, x.Recv.List[0].Type) + ") " + x.Name.Name
-			}
-			into[key] = text(x)
-		case *ast.GenDecl:
-			if x.Tok == token.IMPORT {
-				continue
-			}
-			for _, sp := range x.Specs {
-				switch s := sp.(type) {
-				case *ast.TypeSpec:
-					into["type "+s.Name.Name] = text(x)
-				case *ast.ValueSpec:
-					for _, n := range s.Names {
-						into["var "+n.Name] = text(x)
-					}
-				}
+	lines := strings.SplitAfter(string(src), "\n")
+	key := ""
+	var cur strings.Builder
+	flush := func() {
+		if key != "" {
+			if old, dup := into[key]; dup {
+				into[key] = old + "\n" + strings.TrimSpace(cur.String())
+			} else {
+				into[key] = strings.TrimSpace(cur.String())
 			}
 		}
+		cur.Reset()
 	}
+	for _, l := range lines {
+		if m := reDeclStart.FindStringSubmatch(l); m != nil {
+			flush()
+			switch {
+			case m[2] != "" && m[1] != "":
+				key = "method " + strings.TrimSpace(m[1]) + " " + m[2]
+			case m[2] != "":
+				key = "func " + m[2]
+			case m[3] != "":
+				key = "type " + m[3]
+			default:
+				key = "var " + m[4]
+			}
+		} else if strings.HasPrefix(l, "import ") || strings.HasPrefix(l, "package ") {
+			flush()
+			key = ""
+		}
+		cur.WriteString(l)
+	}
+	flush()
 	return true
-}
-
-func typeText(src []byte, fset *token.FileSet, e ast.Expr) string {
-	return string(src[fset.Position(e.Pos()).Offset:fset.Position(e.End()).Offset])
 }
 
 func c07FileSet(sc *Scenario, argv []string, r *Result) *Violation {
@@ -130,7 +129,7 @@ func c07Compare(sc *Scenario, ex *c07Extra, r0, r1 *Result) *Violation {
 	}
 	for _, p := range sortedKeys(r1.Written()) {
 		if !goDecls(r1.Written()[p], d1) {
-			return &Violation{Class: "text", Signature: "text:unparseable:" + ex.Kind,
+			return &Violation{Class: "text", Signature: "text:unparseable",
 				Detail: fmt.Sprintf("the base program's output parses as Go, the variant's (%s) %s does not", ex.Kind, p)}
 		}
 	}
@@ -140,8 +139,8 @@ func c07Compare(sc *Scenario, ex *c07Extra, r0, r1 *Result) *Violation {
 			continue
 		}
 		if normTmp(d0[k]) != normTmp(t1) {
-			kind := strings.Fields(k)[0]
-			return &Violation{Class: "text", Signature: "text:" + kind + ":" + ex.Kind,
+			kind := strings.Fields(k)[0] + ":" + diffClass(normTmp(d0[k]), normTmp(t1))
+			return &Violation{Class: "text", Signature: "text:" + kind,
 				Detail: fmt.Sprintf("Go emitted for %q differs between the base and the variant (%s): %s", k, ex.Kind, diffSummary([]byte(normTmp(d0[k])), []byte(normTmp(t1))))}
 		}
 	}
@@ -189,7 +188,7 @@ func c07Judge(sc *Scenario, ex *c07Extra, r0, rr, r1 *Result) *Violation {
 	}
 	// same set of definitions, another order / cut: acceptance must not depend on it
 	if (ref.Exit == 0) != (r1.Exit == 0) {
-		return &Violation{Class: "accept", Signature: "accept:sameset:" + ex.Kind,
+		return &Violation{Class: "accept", Signature: "accept:sameset",
 			Detail: fmt.Sprintf("the same definitions in generation order in one file exit %d, the variant (%s) exits %d: %s | %s", ref.Exit, ex.Kind, r1.Exit,
 				tail(ref.Stdout+ref.Stderr, 200), tail(r1.Stdout+r1.Stderr, 200))}
 	}
@@ -902,6 +901,7 @@ func shrinkC07(c *Ctx, sc *Scenario, v *Violation, judge Judge) (*Scenario, *Vio
 }
 
 func checkC07(tier string) {
+	corpusViolations := 0
 	c := newCtx("C07", tier, "fc")
 	pkgAllFoi = mustRead(filepath.Join(c.B.Repo, "pkg", "pkg_all.foi"))
 	nGen, nCorpus := 8000, 60
@@ -1014,8 +1014,37 @@ func checkC07(tier string) {
 		return outcome{sc, c07Judge(sc, ex, r0, rr, r1)}
 	}, nil)
 
+	// permanent corpus: hand-kept base/variant pairs and replays of fixed / known findings. Their signature names
+	// the corpus file, so a listed finding is identified by its specific input.
+	if ents, err := os.ReadDir(filepath.Join(verifDir, "corpus", "c07")); err == nil {
+		for _, e := range ents {
+			if filepath.Ext(e.Name()) != ".json" {
+				continue
+			}
+			sc, err := loadScenario(filepath.Join(verifDir, "corpus", "c07", e.Name()))
+			if err != nil {
+				harnessFail("corpus scenario %s: %v", e.Name(), err)
+			}
+			sc.Expect = nil
+			sc.TickBudget = c05Budget
+			c.count("corpus_scenarios", 1)
+			if v := judgeC07(c, sc); v != nil {
+				name := strings.TrimSuffix(e.Name(), ".json")
+				v.Signature = "corpus:" + name + ":" + v.Signature
+				if k := common.KnownFor(c.Findings, c.Prop, v.Signature); k != nil {
+					msg := fmt.Sprintf("KNOWN-FINDING: property=%s %s [%s]", c.Prop, k.What, v.Signature)
+					c.Known = append(c.Known, msg)
+					fmt.Println(msg)
+					continue
+				}
+				fmt.Printf("violation class=%s signature=%s\n%s\n", v.Class, v.Signature, v.Detail)
+				fmt.Printf("VIOLATION property=%s replay=%s\n", c.Prop, filepath.Join(verifDir, "corpus", "c07", e.Name()))
+				corpusViolations++
+			}
+		}
+	}
 	c.phase("reporting")
-	violations := 0
+	violations := corpusViolations
 	seen := map[string]int{}
 	all := append(outs, outs2...)
 	sort.SliceStable(all, func(i, j int) bool { return scenarioSize(all[i].sc) < scenarioSize(all[j].sc) })
@@ -1072,4 +1101,26 @@ func contains(xs []string, x string) bool {
 		}
 	}
 	return false
+}
+
+var reUnresolved = regexp.MustCompile(`\b_[TP][0-9]+\b`)
+var reEmptyTarg = regexp.MustCompile(`[A-Za-z0-9_]\[\]`)
+var reTParams = regexp.MustCompile(`^func [A-Za-z0-9_]+\[[^\]]*\]`)
+
+// diffClass says what kind of difference two translations of one definition show (the variant kinds that exposed
+// it go into the detail, not into the signature).
+func diffClass(a, b string) string {
+	switch {
+	case reUnresolved.MatchString(a) != reUnresolved.MatchString(b):
+		return "unresolved-type-variable"
+	case reEmptyTarg.MatchString(a) != reEmptyTarg.MatchString(b):
+		return "empty-type-argument"
+	case reTParams.MatchString(a) != reTParams.MatchString(b):
+		return "type-parameter-list"
+	}
+	la, lb := strings.SplitN(a, "\n", 2), strings.SplitN(b, "\n", 2)
+	if la[0] != lb[0] {
+		return "signature"
+	}
+	return "body"
 }
